@@ -103,11 +103,14 @@ CLAIMED.update({
              "value stored by a complete set of that key and only such bytes reach the deserialiser; (v) cacheable interrupts: with the cache "
              "bypassed when the caller supplied the response (CacheInterrupt.v), every call and every history of calls sharing one cache returns "
              "what the executor returns (C09_interrupt_transparent / _histories); without the bypass the statement is refuted on the model's own "
-             "interrupt executor (C09_interrupt_legacy_refuted, the defect repaired by 16c8ea9). Tied to /repo by LRU/Disk differential "
+             "interrupt executor (C09_interrupt_legacy_refuted, the defect repaired by 16c8ea9); (vi) at the level of the store's records "
+             "(DiskStore.v: raw / text / pickle-mode records, diskcache's fetch): with the raw-only Disk no byte string reaches an unpickler "
+             "before its HMAC check passed and foreign records are misses (C09_store_*), the stock store is refuted. Tied to /repo by LRU/Disk differential "
              "runs on a real directory with a pickle.loads spy, by cached-vs-uncached program runs over shared backends, and by pause / answer "
              "histories over a cache=True interrupt.",
         design_ref="DESIGN.md section 5 C09",
-        note="SHA-256 / HMAC are idealised as injective tagging, and forged signatures are excluded (op_ok) — Section hypotheses, not "
+        note="Definition hashes (hash_definition: source, bytecode, captured values, bound receivers) are decided by oracle families only, not modelled. "
+             "SHA-256 / HMAC are idealised as injective tagging, and forged signatures are excluded (op_ok) — Section hypotheses, not "
              "axioms; diskcache/SQLite single-write atomicity and 'no exception' are runtime behaviour, covered by the fault enumeration.",
         technique="Coq proof (invariants over LRU / disk operation histories; per-call cache refinement) + fault enumeration on real backends",
     ),
